@@ -648,7 +648,7 @@ func init() {
 			}
 			return 300
 		},
-		Rule:   "seeded short histories (3-8 Go clients x 4-12 operations on 1-3 atoms; operations deref, pr-str, reset! with unique values, swap! +k, swap! conj unique id, swap! with a failing update; 1 in 6 issued from inside a lisp future) recorded at the EVAL boundary with one monotonic clock and checked for linearizability (porcupine, partitioned by atom) against a sequential register model, with seeded jitter at the verif hook sites and, in a second family, the first swap! parked between computing and installing its result while other clients complete; all under the Go race detector; plus bounded-progress scenarios (update function derefs/prints its own atom, derefs another, ABBA cross-updates, failing updates, counter conservation) and library code on atoms (gensym distinctness, memoize results) from 16 threads; distinct = distinct call/return interleaving shapes",
+		Rule:   "seeded short histories (3-8 Go clients x 4-12 operations on 1-3 atoms; operations deref, pr-str, reset! with unique values, swap! +k, swap! conj unique id, swap! with a failing update; 1 in 6 issued from inside a lisp future) recorded at the EVAL boundary with one monotonic clock and checked for linearizability (porcupine, partitioned by atom) against a sequential register model, with seeded jitter at the verif hook sites and, in a second family, the first swap! parked between computing and installing its result while other clients complete; all under the Go race detector; plus bounded-progress scenarios (update function derefs/prints its own atom, derefs another, ABBA cross-updates, failing updates, counter conservation) and library code on atoms (gensym distinctness, memoize results) from 16 threads; distinct = distinct call/return interleaving shapes; cancelled-loser scenarios: a swap! parked between computing and installing, another writer lands, the parked evaluation's context ends (cancel or future-cancel), it is released: the atom must stay usable (deref, print, reset!, swap! return and agree)",
 		Assume: []string{"porcupine timeout (30 s) is inconclusive", "an update function that updates the very atom being swapped is excluded by the statement", "a blocked evaluation is declared after 40-60 s (normal: microseconds)"},
 		Finish: func(m *fw.Merged) {
 			m.Floor("histories", 100)
